@@ -22,4 +22,11 @@ def undeclared (decl obs : MS) : MS :=
 def judge (declR declW obsR obsW : MS) : Bool :=
   covers declR obsR && covers declW obsW
 
+/-- Outcome of running an instance on the host: only `executed` is covered by a declared read/write set
+(a fault transfers control and is no register effect avo can declare). -/
+def executes (outcome : String) : Bool := outcome == "executed"
+
+/-- Outcome of building an instance through the real constructor, compile pipeline and register extraction. -/
+def builds (outcome : String) : Bool := outcome == "built"
+
 end Avo.RW
